@@ -113,13 +113,47 @@ func tablesDumpCmd(args []string) int {
 	}
 
 	// ---- rule tables, seen through Build -> ToCommandLine ---------------------------------------------------
-	rt := func(what, line, want string) {
+	// An entry survives when the rule built from it lists as text that names the same field and operator
+	// (read back with flags.Parse - how the value is spelt is the printer's business) and that text builds
+	// the same bytes again.
+	reads := func(text, field, op, other string) bool {
+		r, err := flags.Parse(text)
+		if err != nil {
+			return false
+		}
+		sr, ok := r.(*rule.SyscallRule)
+		if !ok {
+			return false
+		}
+		if field == "key" {
+			for _, k := range sr.Keys {
+				if k == other {
+					return true
+				}
+			}
+		}
+		for _, f := range sr.Filters {
+			if f.Comparator != op {
+				continue
+			}
+			if other != "" && f.Type == rule.InterFieldFilterType && ((f.LHS == field && f.RHS == other) || (f.LHS == other && f.RHS == field)) {
+				return true
+			}
+			if f.Type == rule.ValueFilterType && f.LHS == field {
+				return true
+			}
+		}
+		return false
+	}
+	rt := func(what, line, field, op, other string) {
 		trace++
 		ok := false
 		o := parseAndBuild(line)
 		if o.ret == "ok" {
-			if text, r := toCmd(o.wire); r == "ok" && strings.Contains(" "+text+" ", want) {
-				ok = true
+			if text, r := toCmd(o.wire); r == "ok" && reads(text, field, op, other) {
+				if o2 := parseAndBuild(text); o2.ret == "ok" && string(o2.wire) == string(o.wire) {
+					ok = true
+				}
 			}
 		}
 		w.write(map[string]interface{}{"k": "roundtrip", "trace": trace, "what": what, "line": line, "ok": ok})
@@ -128,18 +162,18 @@ func tablesDumpCmd(args []string) int {
 	numFields := []string{"pid", "ppid", "pers", "a0", "a1", "a2", "a3", "devmajor", "devminor", "inode", "success", "uid", "euid", "suid",
 		"fsuid", "auid", "obj_uid", "gid", "egid", "sgid", "fsgid", "obj_gid", "exit"}
 	for _, f := range numFields {
-		rt("field "+f, "-a always,exit -F "+f+"=7", " "+f+"=7 ")
+		rt("field "+f, "-a always,exit -F "+f+"=7", f, "=", "")
 	}
 	for _, f := range []string{"subj_user", "subj_role", "subj_type", "subj_sen", "subj_clr", "obj_user", "obj_role", "obj_type",
 		"obj_lev_low", "obj_lev_high", "exe", "key"} {
-		rt("field "+f, "-a always,exit -F "+f+"=abc", " "+f+"=abc ")
+		rt("field "+f, "-a always,exit -F "+f+"=abc", f, "=", map[bool]string{true: "abc", false: ""}[f == "key"])
 	}
-	rt("field saddr_fam", "-a always,exit -F saddr_fam=2", " saddr_fam=2 ")
-	rt("field msgtype", "-a always,user -F msgtype=1100", " msgtype=")
-	rt("field filetype", "-a always,exit -F pid=1 -F filetype=fifo", " filetype=4096 ")
-	rt("field perm", "-a always,exit -F pid=1 -F perm=wa", " perm=wa ")
+	rt("field saddr_fam", "-a always,exit -F saddr_fam=2", "saddr_fam", "=", "")
+	rt("field msgtype", "-a always,user -F msgtype=1100", "msgtype", "=", "")
+	rt("field filetype", "-a always,exit -F pid=1 -F filetype=fifo", "filetype", "=", "")
+	rt("field perm", "-a always,exit -F pid=1 -F perm=wa", "perm", "=", "")
 	for _, op := range []string{"=", "!=", "<", ">", "<=", ">=", "&", "&="} {
-		rt("operator "+op, "-a always,exit -F 'a1"+op+"5'", " a1"+op+"5 ")
+		rt("operator "+op, "-a always,exit -F 'a1"+op+"5'", "a1", op, "")
 	}
 	uidf := []string{"uid", "euid", "suid", "fsuid", "auid", "obj_uid"}
 	gidf := []string{"gid", "egid", "sgid", "fsgid", "obj_gid"}
@@ -150,15 +184,10 @@ func tablesDumpCmd(args []string) int {
 					continue
 				}
 				line := "-a always,exit -C " + a + "!=" + b
-				o := parseAndBuild(line)
-				if o.ret != "ok" {
+				if o := parseAndBuild(line); o.ret != "ok" {
 					continue // not every pair is a kernel comparison
 				}
-				trace++
-				text, r := toCmd(o.wire)
-				ok := r == "ok" && (strings.Contains(text, "-C "+a+"!="+b) || strings.Contains(text, "-C "+b+"!="+a))
-				w.write(map[string]interface{}{"k": "roundtrip", "trace": trace, "what": "comparison " + a + "," + b, "line": line, "ok": ok})
-				stats["rule_table_entries"]++
+				rt("comparison "+a+","+b, line, a, "!=", b)
 			}
 		}
 	}
@@ -199,8 +228,6 @@ func tablesDumpCmd(args []string) int {
 	}
 	w.write(map[string]interface{}{"k": "end"})
 	w.close()
-	_ = rule.Build
-	_ = flags.Parse
 	printJSON(map[string]interface{}{"stats": stats})
 	return 0
 }
